@@ -36,13 +36,10 @@ func c19OwnLines(kinds ...string) {
 			}
 		}
 	}
-	tmp, err := os.CreateTemp("", "c19lines")
-	if err != nil {
-		return
+	out := os.Getenv("VERIF_OUT") + ".lines" // next to the output file: no stray temporary files
+	if os.WriteFile(out, []byte(strings.Join(keep, "\n")+"\n"), 0o644) == nil {
+		os.Setenv("VERIF_LINES", out)
 	}
-	tmp.WriteString(strings.Join(keep, "\n") + "\n")
-	tmp.Close()
-	os.Setenv("VERIF_LINES", tmp.Name())
 }
 
 func c19KV(hdr string) map[string]string {
